@@ -305,6 +305,11 @@ uint64_t cmb_timeseries_copy(struct cmb_timeseries *tgt,
     cmb_assert_release(((struct cmb_dataset *)src)->cookie == CMI_INITIALIZED);
     cmb_assert_release(tgt != NULL);
 
+    if (tgt == src) {
+        /* Already its own copy; freeing the target would lose the data */
+        return ((const struct cmb_dataset *)src)->count;
+    }
+
     struct cmb_dataset *dsp_tgt = (struct cmb_dataset *) tgt;
     const struct cmb_dataset *dsp_src = (struct cmb_dataset *)src;
     (void)cmb_dataset_copy(dsp_tgt, dsp_src);
